@@ -6,13 +6,13 @@
    statements on the projected trace and cross-checks them against the theorems' predictions for the repaired
    variant (MODELBUG if the extracted code disagrees with what is proved). *)
 (* variants: v<s><o><l><p><q><g> = fix_sent, fix_order, fix_l2stop, fix_prune, fix_presend, fix_ghost on top of the first
-   three repairs; "head" = v101101 = /repo HEAD; "repaired" = v111111; "defective" = the code as first found *)
+   three repairs; "head" = v101111 = /repo HEAD; "repaired" = v111111; "defective" = the code as first found *)
 let variant_of name =
   let mk s o l p q g = { fix_counters = true; fix_stop = true; fix_active = true; fix_sent = s; fix_order = o; fix_l2stop = l;
                          fix_prune = p; fix_presend = q; fix_ghost = g } in
   match name with
   | "repaired" | "" -> mk true true true true true true
-  | "head" -> mk true false true true false true
+  | "head" -> mk true false true true true true
   | "defective" -> { fix_counters = false; fix_stop = false; fix_active = false; fix_sent = false; fix_order = false;
                      fix_l2stop = false; fix_prune = false; fix_presend = false; fix_ghost = false }
   | s when String.length s = 7 && s.[0] = 'v' ->
